@@ -249,15 +249,62 @@ fn strategy(tier: Tier) -> BoxedStrategy<Case> {
         .boxed()
 }
 
+/// Every stream over a tiny alphabet up to a length bound, for every small width, through the
+/// same oracle (which checks every prefix).
+fn exhaustive(ctx: &Ctx, alphabet: u16, max_len: usize, widths: std::ops::RangeInclusive<usize>) {
+    let a = alphabet as usize;
+    let n_streams: usize = (0..=max_len).map(|l| a.pow(l as u32)).sum();
+    let ws: Vec<usize> = widths.clone().collect();
+    ctx.run_indexed("exhaustive_small_streams", n_streams * ws.len(), |i, acc| {
+        let w = ws[i % ws.len()];
+        let mut code = i / ws.len();
+        // decode (length, digits)
+        let mut len = 0usize;
+        loop {
+            let cnt = a.pow(len as u32);
+            if code < cnt {
+                break;
+            }
+            code -= cnt;
+            len += 1;
+        }
+        let mut items = Vec::with_capacity(len);
+        for _ in 0..len {
+            items.push((code % a) as u16);
+            code /= a;
+        }
+        let thresholds = vec![0.0, 1.0 / w as f64, (2.0 / w as f64).min(1.0), 0.3, 0.5, 0.75, 1.0];
+        let case = Case { ctor: Ctor::Width(w), stream: Stream::Explicit(items), thresholds };
+        match C09.eval(&case) {
+            Verdict::Fail { sig, msg } => Some((serde_json::to_value(&case).unwrap(), sig, msg)),
+            Verdict::Pass(info) => {
+                acc.pass_enum(info.nontrivial, || serde_json::to_value(&case).unwrap());
+                None
+            }
+        }
+    });
+    ctx.mark_exhaustive(
+        "exhaustive_small_streams",
+        format!("every stream over an alphabet of {} elements up to length {} for every width in {:?} (with_width), every prefix, thresholds {{0, 1/w, 2/w, .3, .5, .75, 1}}", alphabet, max_len, widths),
+    );
+}
+
 pub fn checks() -> Vec<Box<dyn DynCheck>> {
     vec![Box::new(C09)]
 }
 
 pub fn run(ctx: &Ctx) {
-    ctx.set_rule("generated: with_epsilon(e) / with_width(w) x stream family (explicit shrinkable item lists, uniform, zipf, all-distinct, boundary adversary whose occurrences sit on the first slots after each window end, blocks) x thresholds {epsilon, 2*epsilon, 0, .1, .5, 1, random}; checked at every prefix up to 400, around every window end up to 4000 and at geometric prefixes beyond. Oracle: reference Manku-Motwani lossy counter + exact counts: n(), add's return value, query(0) == reference table, no miss (true >= s*n and > eps*n), no intruder (true < (s-eps)*n), table size <= width*(H(ceil(n/width))+1). Non-trivial: the stream crosses >= 2 window ends and an element was pruned and later re-added. Distinct = (width, stream). evaluations = cases + prefixes checked.");
+    ctx.set_rule("exhaustive: every stream over a 3-element alphabet up to length 10 (thorough: 13, and 4 elements up to length 10) for widths 1..=5 (6), every prefix. generated: with_epsilon(e) / with_width(w) x stream family (explicit shrinkable item lists, uniform, zipf, all-distinct, boundary adversary whose occurrences sit on the first slots after each window end, blocks) x thresholds {epsilon, 2*epsilon, 0, .1, .5, 1, random}; checked at every prefix up to 400, around every window end up to 4000 and at geometric prefixes beyond. Oracle: reference Manku-Motwani lossy counter + exact counts: n(), add's return value, query(0) == reference table, no miss (true >= s*n and > eps*n), no intruder (true < (s-eps)*n), table size <= width*(H(ceil(n/width))+1). Non-trivial: the stream crosses >= 2 window ends and an element was pruned and later re-added. Distinct = (width, stream). evaluations = cases + prefixes checked.");
     ctx.assume("float guard band 1e-9*n on the s*n, epsilon*n and (s-epsilon)*n comparisons");
     ctx.run_regressions(&[&C09]);
     let t = ctx.tier;
+    match t {
+        Tier::Quick => exhaustive(ctx, 3, 10, 1..=5),
+        Tier::Thorough => {
+            exhaustive(ctx, 3, 13, 1..=6);
+            exhaustive(ctx, 4, 10, 1..=5);
+        }
+    }
     ctx.run_random(&C09, t.pick(40_000, 600_000), move || strategy(t));
     ctx.require_class("prefixes", "pruned_and_readded", 0.2);
     ctx.require_class("prefixes", "boundary_adversary", 0.1);
